@@ -321,3 +321,81 @@ type StmtText struct {
 	Args  []interface{}
 	Query bool
 }
+
+// ---- helpers shared by the AT-family properties ----------------------------------------------
+
+// SetupTables creates the scenario's tables under per-case names and inserts the initial rows.
+func (e *Env) SetupTables(ddl []string, inserts []string, n int) (names []string, err error) {
+	c := NextCase()
+	for i := 0; i < n; i++ {
+		names = append(names, TableName(c, i))
+	}
+	for i, d := range ddl {
+		if _, err := e.Bare.Exec(replaceName(d, names[i])); err != nil {
+			return names, fmt.Errorf("DDL: %v", err)
+		}
+		if inserts[i] != "" {
+			if _, err := e.Bare.Exec(replaceName(inserts[i], names[i])); err != nil {
+				return names, fmt.Errorf("initial rows: %v", err)
+			}
+		}
+	}
+	return names, nil
+}
+
+func replaceName(q, name string) string {
+	out := ""
+	for i := 0; i < len(q); i++ {
+		if i+3 <= len(q) && q[i:i+3] == "{T}" {
+			out += name
+			i += 2
+			continue
+		}
+		out += string(q[i])
+	}
+	return out
+}
+
+// DropTables removes the per-case tables.
+func (e *Env) DropTables(names []string) {
+	for _, n := range names {
+		e.Srv.DropTable(Schema, n)
+	}
+}
+
+// DiffSnap describes the difference of two snapshots ("" when equal).
+func DiffSnap(want, got map[string][]string) string {
+	out := ""
+	for t, ra := range want {
+		ma, mb := map[string]int{}, map[string]int{}
+		for _, r := range ra {
+			ma[r]++
+		}
+		for _, r := range got[t] {
+			mb[r]++
+		}
+		for r, n := range ma {
+			if mb[r] != n {
+				out += fmt.Sprintf("\n  %s: expected row missing/changed: %s", t, r)
+			}
+		}
+		for r, n := range mb {
+			if ma[r] != n {
+				out += fmt.Sprintf("\n  %s: unexpected row: %s", t, r)
+			}
+		}
+	}
+	return out
+}
+
+// Tail renders the last n journal entries.
+func Tail(j []memsql.Entry, n int) string {
+	if len(j) > n {
+		j = j[len(j)-n:]
+	}
+	out := ""
+	for _, e := range j {
+		out += "    " + e.String() + "\n"
+	}
+	return out
+}
